@@ -177,6 +177,17 @@ def run(ctx):
                 corpus.setdefault(b"".join(out), "hello-chains")
     except Exception as e:
         raise Machinery("cannot build the client-hello chains: %s" % e)
+    # containers whose keys / members are registered enums carrying values no honest encoder produces (lists): thousands of them, all different - whatever the
+    # decoder does with unhashable or colliding keys must stay linear
+    enums = [c_ for c_ in registered if issubclass(c_, S.SerializableEnum)]
+    for ecls in sorted(enums, key=lambda c_: c_.type_id)[:2]:
+        for tid in (B.map_t, B.set_t):
+            for n in (2000, 2 ** 14):
+                items = []
+                for i in range(n):
+                    key = struct.pack(">H", ecls.type_id) + struct.pack(">H", B.seq_t) + int_bytes(B, 1) + int_bytes(B, 1000 + i)
+                    items.append(key + (struct.pack(">H", B.null_t) if tid == B.map_t else b""))
+                corpus.setdefault(struct.pack(">H", tid) + int_bytes(B, n) + b"".join(items), "enum-keys-with-list-values")
     # what a CLIENT decodes from an unauthenticated peer: server hellos signed by the sender's own root key (a client without a pinned key accepts the embedded
     # root key, a client with one at least parses up to the signature) whose signed fields have other types and sizes than the honest ones
     shello = {}
